@@ -139,6 +139,26 @@ def extra_seed_rounds(out, exe, prop, res, main_secs):
                                                "evaluations": sum(r["evaluations"] for r in rounds)}
 
 
+def release_profile_pass(out, prop, res):
+    """Thorough tier: the quick workload once more from a plain release build (no debug assertions, no overflow checks):
+    code inside debug_assert!/cfg(debug_assertions) is absent there and wrapping arithmetic is silent."""
+    exe2, msg = build_harness(profile="release")
+    if exe2 is None:
+        out.inconclusive.append("release-profile pass: " + msg)
+        return
+    rep, status, err = run_harness(exe2, ["run", prop, "quick", str(common.seed()), res], res, TIMEOUTS["quick"])
+    if rep is None:
+        out.inconclusive.append("release-profile pass: " + status)
+        return
+    d = out.distinct_nontrivial
+    rep["samples"] = []
+    for v in rep.get("violations", []):
+        v["desc"] = "[release profile] " + v.get("desc", "")
+    absorb(out, rep)
+    out.distinct_nontrivial = d
+    out.coverage_extra["release_profile_pass"] = {"workload": "quick", "evaluations": rep.get("evaluations", 0), "violations": rep.get("violations_total", 0)}
+
+
 def run(prop, tier, replay=None):
     out = common.Outcome(prop, tier)
     out.is_replay = replay is not None
@@ -182,6 +202,7 @@ def run(prop, tier, replay=None):
         else:
             absorb(out, rep)
             if tier == "thorough":
+                release_profile_pass(out, prop, res)
                 extra_seed_rounds(out, exe, prop, res, time.time() - t0)
     try:
         if os.path.exists(res):
